@@ -1,28 +1,46 @@
 package main
 
-// C02 no silent corruption: byte-level faults on the connection (bit flip, deletion,
-// duplication, insertion, truncation of the tail) at sampled offsets of either
-// direction, in every phase.  Direct oracle on the real client and the real server:
-// whenever a side reports success, the destination is byte-identical to the source.
+// C02 no silent corruption, end to end: faults on the connection between the real client and
+// the real trz / tsz child - bit flip, deletion, duplication, insertion of one byte, truncation of
+// the tail, a byte range cut out (truncation followed by late delivery), a byte range delivered
+// twice, a whole protocol line dropped / duplicated / replaced by a well-formed line with another
+// value (digest forged, acknowledged length changed) - one to three per run, at sampled offsets of
+// either direction, in every phase, including the prefix-hash exchange (overwrite onto existing
+// destinations, protocol >= 3) and archive streams (directory mode, protocol 4).
+//
+// Direct oracle on the real client and the real server: whenever a side reports success, the
+// destination is byte-identical to the source.  Transcript-level tie (c02f.go): the model's
+// receiver and sender machines, fed with what was DELIVERED, must write what the real ones
+// wrote, save what they saved and end as they ended.
 
 import (
 	"bytes"
+	"crypto/md5"
 	"fmt"
 	"math/rand"
 	"os"
 	"path/filepath"
+	"sort"
+	"strconv"
 	"strings"
 	"sync"
 	"time"
+
+	"github.com/trzsz/trzsz-go/trzsz"
 )
 
 func init() { groups["e2e-faults"] = genFaults }
 
 type faultSpec struct {
 	dir    int
-	offset int64
-	kind   string // flip, delete, dup, insert, truncate
+	offset int64 // position in the stream of dir AS SENT
+	end    int64 // cut / dupr: the range is [offset, end)
+	kind   string
 	bit    uint
+	// line faults: the nth line of dir that starts with prefix (counted over whole writes)
+	prefix string
+	nth    int
+	repl   string // forge: the line to put in its place ("" = c02Forge)
 }
 
 func (f faultSpec) String() string {
@@ -30,42 +48,229 @@ func (f faultSpec) String() string {
 	if f.dir == dirS2C {
 		d = "s2c"
 	}
+	switch f.kind {
+	case "cut", "dupr":
+		return fmt.Sprintf("%s@%s+%d..%d", f.kind, d, f.offset, f.end)
+	case "dropline", "dupline", "forge":
+		return fmt.Sprintf("%s@%s:%s#%d", f.kind, d, f.prefix, f.nth)
+	}
 	return fmt.Sprintf("%s@%s+%d", f.kind, d, f.offset)
 }
 
-// faultHook applies one fault at an absolute byte offset of one direction
-func faultHook(f faultSpec) e2eHook {
-	var mu sync.Mutex
-	var pos [2]int64
-	done := false
-	return func(dir, idx int, b []byte) e2eAction {
-		mu.Lock()
-		defer mu.Unlock()
-		start := pos[dir]
-		pos[dir] += int64(len(b))
-		if done || dir != f.dir || f.offset < start || f.offset >= start+int64(len(b)) {
-			return e2eAction{}
-		}
-		done = true
-		k := int(f.offset - start)
-		nb := append([]byte(nil), b...)
-		switch f.kind {
-		case "flip":
-			nb[k] ^= 1 << f.bit
-		case "delete":
-			nb = append(nb[:k], nb[k+1:]...)
-		case "dup":
-			nb = append(nb[:k+1], nb[k:]...)
-		case "insert":
-			nb = append(nb[:k], append([]byte{byte('0' + f.bit)}, nb[k:]...)...)
-		case "truncate":
-			return e2eAction{data: [][]byte{nb[:k]}, silence: true}
-		}
-		if len(nb) == 0 {
-			return e2eAction{drop: true}
-		}
-		return e2eAction{data: [][]byte{nb}}
+// c02Forge: a well-formed line with another value
+func c02Forge(line []byte, rng uint) []byte {
+	s := strings.TrimSuffix(string(line), "\n")
+	i := strings.IndexByte(s, ':')
+	if i < 0 {
+		return line
 	}
+	head, p := s[:i+1], s[i+1:]
+	if k := strings.IndexByte(p, '/'); k >= 0 { // len/step
+		if n, err := strconv.ParseInt(p[:k], 10, 64); err == nil {
+			return []byte(fmt.Sprintf("%s%d%s\n", head, n+1, p[k:]))
+		}
+	}
+	if n, err := strconv.ParseInt(p, 10, 64); err == nil {
+		return []byte(fmt.Sprintf("%s%d\n", head, n+1))
+	}
+	if d, err := trzsz.VerifDecodeString(p); err == nil && len(d) > 0 {
+		nd := append([]byte{}, d...)
+		nd[int(rng)%len(nd)] ^= 1 << (rng % 8)
+		return []byte(head + trzsz.VerifEncodeBytes(nd) + "\n")
+	}
+	return line
+}
+
+// c02Hook applies the faults of one run and records both directions as sent
+type c02Hook struct {
+	mu        sync.Mutex
+	faults    []*faultSpec
+	pos       [2]int64
+	sent      [2]bytes.Buffer
+	truncated [2]bool
+	carry     map[*faultSpec][]byte
+	dpos      [2]int64     // bytes delivered so far
+	last      [2]time.Time // when the previous delivery of this direction happened
+	stale     [2]int64     // -1, or the delivered offset behind which everything arrived after a silence
+	// longer than the receive timeout: the reader had given up before it came
+	lineSeen map[*faultSpec]int
+	applied  map[*faultSpec]bool
+}
+
+func newC02Hook(fs []faultSpec) *c02Hook {
+	h := &c02Hook{carry: map[*faultSpec][]byte{}, lineSeen: map[*faultSpec]int{}, applied: map[*faultSpec]bool{}}
+	for i := range fs {
+		h.faults = append(h.faults, &fs[i])
+	}
+	h.stale = [2]int64{-1, -1}
+	return h
+}
+
+// c02StaleGap: both ends run with a receive timeout of 2 s (e2eCfg.timeout); the gaps that occur are
+// far below it or above it (a timeout of the peer plus its clean-up)
+const c02StaleGap = 1900 * time.Millisecond
+
+func (h *c02Hook) hook(dir, idx int, b []byte) e2eAction {
+	h.mu.Lock()
+	defer h.mu.Unlock()
+	act := h.apply(dir, b)
+	n := int64(len(b))
+	if act.drop {
+		n = 0
+	} else if act.data != nil {
+		n = 0
+		for _, d := range act.data {
+			n += int64(len(d))
+		}
+	}
+	if n > 0 {
+		now := time.Now()
+		if !h.last[dir].IsZero() && now.Sub(h.last[dir]) >= c02StaleGap && h.stale[dir] < 0 {
+			h.stale[dir] = h.dpos[dir]
+		}
+		h.last[dir] = now
+		h.dpos[dir] += n
+	}
+	return act
+}
+
+func (h *c02Hook) apply(dir int, b []byte) e2eAction {
+	h.sent[dir].Write(b)
+	start := h.pos[dir]
+	h.pos[dir] += int64(len(b))
+	stop := h.pos[dir]
+	if h.truncated[dir] {
+		return e2eAction{drop: true}
+	}
+	touched := false
+	for _, f := range h.faults {
+		if f.dir != dir {
+			continue
+		}
+		switch f.kind {
+		case "cut", "dupr":
+			touched = touched || (f.offset < stop && f.end > start)
+		case "truncate":
+			touched = touched || f.offset < stop
+		case "dropline", "dupline", "forge":
+			touched = touched || !h.applied[f]
+		case "coalesce":
+			touched = true
+		default:
+			touched = touched || (f.offset >= start && f.offset < stop)
+		}
+	}
+	if !touched {
+		return e2eAction{}
+	}
+	out := make([]byte, 0, len(b)+64)
+	for i := 0; i < len(b) && !h.truncated[dir]; i++ {
+		a := start + int64(i)
+		c := b[i]
+		times := 1
+		var after []byte
+		for _, f := range h.faults {
+			if f.dir != dir {
+				continue
+			}
+			switch f.kind {
+			case "flip":
+				if a == f.offset {
+					c ^= 1 << f.bit
+					h.applied[f] = true
+				}
+			case "delete":
+				if a == f.offset {
+					times = 0
+					h.applied[f] = true
+				}
+			case "dup":
+				if a == f.offset {
+					times++
+					h.applied[f] = true
+				}
+			case "insert":
+				if a == f.offset {
+					out = append(out, byte('0'+f.bit))
+					h.applied[f] = true
+				}
+			case "truncate":
+				if a >= f.offset {
+					h.truncated[dir] = true
+					times = 0
+					h.applied[f] = true
+				}
+			case "cut":
+				if a >= f.offset && a < f.end {
+					times = 0
+					h.applied[f] = true
+				}
+			case "dupr":
+				if a >= f.offset && a < f.end {
+					h.carry[f] = append(h.carry[f], c)
+					if a == f.end-1 {
+						after = append(after, h.carry[f]...)
+						h.applied[f] = true
+					}
+				}
+			}
+		}
+		for k := 0; k < times; k++ {
+			out = append(out, c)
+		}
+		out = append(out, after...)
+	}
+	// whole lines, by content
+	for _, f := range h.faults {
+		if f.dir != dir || h.applied[f] || (f.kind != "dropline" && f.kind != "dupline" && f.kind != "forge") {
+			continue
+		}
+		p := 0
+		for p < len(out) {
+			nl := bytes.IndexByte(out[p:], '\n')
+			if nl < 0 {
+				break
+			}
+			line := out[p : p+nl+1]
+			if bytes.HasPrefix(line, []byte(f.prefix)) {
+				h.lineSeen[f]++
+				if h.lineSeen[f] == f.nth {
+					var repl []byte
+					switch f.kind {
+					case "dupline":
+						repl = append(append([]byte{}, line...), line...)
+					case "forge":
+						repl = c02Forge(line, f.bit)
+						if f.repl != "" {
+							repl = []byte(f.repl)
+						}
+					}
+					out = append(out[:p:p], append(repl, out[p+nl+1:]...)...)
+					h.applied[f] = true
+					break
+				}
+			}
+			p += nl + 1
+		}
+	}
+	// a transport that delivers a DATA frame together with what follows it (the finish flag): nothing is
+	// changed, the two writes arrive as one
+	for _, f := range h.faults {
+		if f.dir != dir || f.kind != "coalesce" {
+			continue
+		}
+		out = append(h.carry[f], out...)
+		h.carry[f] = nil
+		if i := bytes.LastIndex(out, []byte("#DATA:")); i >= 0 && !bytes.HasSuffix(out, []byte("#DATA:\n")) && !bytes.HasSuffix(out, []byte("#DATA:0\n")) &&
+			!bytes.Contains(out[i:], []byte("#MD5:")) {
+			h.carry[f] = out
+			out = nil
+		}
+	}
+	if len(out) == 0 {
+		return e2eAction{drop: true}
+	}
+	return e2eAction{data: [][]byte{out}}
 }
 
 func phaseAt(wire []byte, off int64) string {
@@ -93,19 +298,79 @@ func minInt(a, b int) int {
 	return b
 }
 
+// the line boundaries of a recorded direction: [start, end) of every line that starts with '#'
+func c02LineRanges(wire []byte) [][2]int64 {
+	var out [][2]int64
+	p := 0
+	for p < len(wire) {
+		nl := bytes.IndexByte(wire[p:], '\n')
+		if nl < 0 {
+			break
+		}
+		if wire[p] == '#' {
+			out = append(out, [2]int64{int64(p), int64(p + nl + 1)})
+		}
+		p += nl + 1
+	}
+	return out
+}
+
+type c02Base struct {
+	cfg   e2eCfg
+	tops  []string
+	pre   []c01tPre
+	wire  [2][]byte
+	root  string
+	kind  string // flat, resume, archive
+	names []string
+}
+
+func (b *c02Base) mkDest(dest string) {
+	os.MkdirAll(dest, 0755)
+	for _, p := range b.pre {
+		full := filepath.Join(dest, p.rel)
+		if p.isDir {
+			os.MkdirAll(full, 0755)
+		} else {
+			os.MkdirAll(filepath.Dir(full), 0755)
+			os.WriteFile(full, p.content, 0644)
+		}
+	}
+}
+
+// identical: the destination holds every source under the given names (overwrite: what the
+// destination held besides is left alone)
+func (b *c02Base) identical(dest string, names []string) string {
+	for j, top := range b.tops {
+		name := filepath.Base(top)
+		if names != nil {
+			name = names[j]
+		}
+		d := sameTree(top, filepath.Join(dest, name))
+		if b.cfg.overwrite {
+			var d2 []string
+			for _, x := range d {
+				if !strings.HasPrefix(x, "extra:") {
+					d2 = append(d2, x)
+				}
+			}
+			d = d2
+		}
+		if len(d) > 0 {
+			return strings.Join(d, ";")
+		}
+	}
+	return ""
+}
+
 func genFaults(c *ctx) {
 	work, _ := os.MkdirTemp("", "e2e_faults_")
 	defer os.RemoveAll(work)
-	type base struct {
-		cfg  e2eCfg
-		tops []string
-		wire [2][]byte
-		root string
-	}
-	var bases []*base
+	var bases []*c02Base
 	protos := []int{0, 2, 3, 4}
-	for i := 0; i < c.pick(6, 24); i++ {
-		b := &base{root: filepath.Join(work, fmt.Sprintf("b%d", i))}
+	nFlat := c.pick(6, 24)
+	for i := 0; i < nFlat; i++ {
+		b := &c02Base{root: filepath.Join(work, fmt.Sprintf("b%d", i)), kind: "flat"}
 		b.cfg = e2eCfg{upload: i%2 == 0, binary: (i/2)%2 == 0, proto: protos[i%len(protos)], timeout: 2, quiet: true,
 			overwrite: i%3 == 0, escape: i%5 == 0, deadline: 25 * time.Second, startWait: 1500 * time.Millisecond,
 			// without compression a changed payload byte survives decoding: the digest check is the only guard
@@ -117,59 +382,244 @@ func genFaults(c *ctx) {
 			os.WriteFile(p, fillBytes(rng, n, rng.Intn(4)), 0644)
 			b.tops = append(b.tops, p)
 		}
+		if b.cfg.overwrite && b.cfg.proto < 3 {
+			// something to replace (protocol < 3 truncates; protocol >= 3 would start the resume exchange)
+			b.pre = append(b.pre, c01tPre{rel: "f0.bin", content: fillBytes(rng, 1+rng.Intn(60), 2)})
+		}
+		bases = append(bases, b)
+	}
+	// overwrite onto an existing, non-empty destination, protocol >= 3: the prefix-hash exchange
+	for i := 0; i < c.pick(2, 8); i++ {
+		b := &c02Base{root: filepath.Join(work, fmt.Sprintf("r%d", i)), kind: "resume"}
+		b.cfg = e2eCfg{upload: i%2 == 0, binary: (i/2)%2 == 0, proto: 3 + (i/2+i)%2, timeout: 2, quiet: true, overwrite: true,
+			deadline: 25 * time.Second, startWait: 1500 * time.Millisecond, compress: []string{"no", "yes", ""}[i%3]}
+		rng := rand.New(rand.NewSource(c.rng.Int63()))
+		os.MkdirAll(filepath.Join(b.root, "s"), 0755)
+		src := fillBytes(rng, 2000+rng.Intn(3000), rng.Intn(4))
+		p := filepath.Join(b.root, "s", "f0.bin")
+		os.WriteFile(p, src, 0644)
+		b.tops = []string{p}
+		old := append([]byte{}, src[:len(src)/2]...) // a proper prefix: the hashes match
+		if i%3 == 1 {
+			old[len(old)/2] ^= 0x55 // diverges: the hashes do not match
+		} else if i%3 == 2 {
+			old = append(append([]byte{}, src...), fillBytes(rng, 300, 0)...) // longer than the source
+		}
+		b.pre = []c01tPre{{rel: "f0.bin", content: old}}
+		bases = append(bases, b)
+	}
+	// the same over more than one hash block (10 MiB each): destination = first block of the source, second
+	// block different; faults on the answers of the hash exchange
+	for i := 0; i < c.pick(1, 4); i++ {
+		b := &c02Base{root: filepath.Join(work, fmt.Sprintf("rb%d", i)), kind: "resume-blocks"}
+		k := int(c.rng.Int63n(8))
+		b.cfg = e2eCfg{upload: k%2 == 0, binary: (k/2)%2 == 0, proto: 3 + (k/4)%2, timeout: 3, quiet: true, overwrite: true,
+			deadline: 60 * time.Second, startWait: 1500 * time.Millisecond, compress: "yes"}
+		rng := rand.New(rand.NewSource(c.rng.Int63()))
+		os.MkdirAll(filepath.Join(b.root, "s"), 0755)
+		B := int(trzsz.VerifPrefixHashStep())
+		src := fillBytes(rng, 2*B+1000+rng.Intn(5000), 2)
+		p := filepath.Join(b.root, "s", "f0.bin")
+		os.WriteFile(p, src, 0644)
+		b.tops = []string{p}
+		old := append([]byte{}, src[:2*B]...)
+		old[B+rng.Intn(B)] ^= 0x20
+		b.pre = []c01tPre{{rel: "f0.bin", content: old}}
+		bases = append(bases, b)
+	}
+	// one small file; the SIZE message damaged to 0 and its echo damaged back: the size check of the
+	// receiving pipeline (protocol >= 2) is a race between the acknowledger and the saver
+	for i := 0; i < c.pick(2, 6); i++ {
+		b := &c02Base{root: filepath.Join(work, fmt.Sprintf("sz%d", i)), kind: "size-race"}
+		k := int(c.rng.Int63n(16))
+		b.cfg = e2eCfg{upload: i%2 == 0, binary: (k/2)%2 == 0, proto: 2 + (k/4)%3, timeout: 2, quiet: true,
+			deadline: 25 * time.Second, startWait: 1500 * time.Millisecond, compress: "yes"}
+		rng := rand.New(rand.NewSource(c.rng.Int63()))
+		os.MkdirAll(filepath.Join(b.root, "s"), 0755)
+		p := filepath.Join(b.root, "s", "f0.bin")
+		os.WriteFile(p, fillBytes(rng, 1+rng.Intn(3000), rng.Intn(4)), 0644)
+		b.tops = []string{p}
+		bases = append(bases, b)
+	}
+	// directory mode, protocol 4, a directory with children: the archive stream
+	for i := 0; i < c.pick(2, 8); i++ {
+		b := &c02Base{root: filepath.Join(work, fmt.Sprintf("a%d", i)), kind: "archive"}
+		b.cfg = e2eCfg{upload: i%2 == 0, binary: (i/2)%2 == 0, proto: 4, timeout: 2, quiet: true, directory: true,
+			deadline: 25 * time.Second, startWait: 1500 * time.Millisecond, compress: []string{"no", "yes"}[(i/2+i)%2]}
+		rng := rand.New(rand.NewSource(c.rng.Int63()))
+		d := filepath.Join(b.root, "s", "tree")
+		os.MkdirAll(filepath.Join(d, "sub", "empty"), 0755)
+		os.WriteFile(filepath.Join(d, "a.bin"), fillBytes(rng, 800+rng.Intn(2000), rng.Intn(4)), 0644)
+		os.WriteFile(filepath.Join(d, "sub", "b.bin"), fillBytes(rng, 300+rng.Intn(900), rng.Intn(4)), 0644)
+		os.WriteFile(filepath.Join(d, "sub", "zero"), nil, 0644)
+		b.tops = []string{d}
 		bases = append(bases, b)
 	}
 	// baseline (fault-free) runs give the wire of each direction
 	parallelDo(len(bases), 12, func(i int) {
 		b := bases[i]
 		dest := filepath.Join(b.root, "dest0")
-		os.MkdirAll(dest, 0755)
-		r := runTransfer(b.cfg, b.tops, dest)
+		b.mkDest(dest)
+		h := newC02Hook(nil)
+		cfg := b.cfg
+		cfg.hook = h.hook
+		r := runTransfer(cfg, b.tops, dest)
 		b.wire = r.wire
+		shown := r.serverOut
+		if !cfg.upload {
+			shown = r.termOut + r.serverOut
+		}
+		names, saved := parseSaved(shown)
+		if saved && len(names) == len(b.tops) {
+			b.names = names
+		}
 	})
 	type fcase struct {
-		b      *base
-		f      faultSpec
-		phase  string
-		res    e2eResult
-		bad    string
-		succ   string
+		b     *c02Base
+		fs    []faultSpec
+		phase []string
+		res   e2eResult
+		bad   string
+		succ  string
+		tie   c02fOut
 	}
 	var cases []*fcase
-	kinds := []string{"flip", "delete", "dup", "insert", "truncate"}
-	per := c.pick(28, 400)
+	kinds := []string{"flip", "delete", "dup", "insert", "truncate", "cut", "dupr", "dropline", "dupline", "forge"}
+	per := c.pick(26, 150)
 	for _, b := range bases {
-		if len(b.wire[0]) == 0 || len(b.wire[1]) == 0 {
-			c.violate("baseline-failed", "fault-free baseline transfer produced no traffic", describeCfg(b.cfg))
+		if len(b.wire[0]) == 0 || len(b.wire[1]) == 0 || b.names == nil {
+			c.violate("baseline-failed", "fault-free baseline transfer did not succeed", describeCfg(b.cfg)+" kind="+b.kind)
 			continue
 		}
-		for k := 0; k < per; k++ {
+		if d := b.identical(filepath.Join(b.root, "dest0"), b.names); d != "" {
+			c.violate("baseline-differs", "fault-free baseline transfer: destination differs from the source", describeCfg(b.cfg)+" kind="+b.kind+" :: "+d)
+			continue
+		}
+		ddir := dirS2C
+		if b.cfg.upload {
+			ddir = dirC2S
+		}
+		lines := [2][][2]int64{c02LineRanges(b.wire[0]), c02LineRanges(b.wire[1])}
+		one := func(k int) faultSpec {
 			dir := c.rng.Intn(2)
 			f := faultSpec{dir: dir, offset: int64(c.rng.Intn(len(b.wire[dir]))), kind: kinds[c.rng.Intn(len(kinds))], bit: uint(c.rng.Intn(8))}
 			if k%2 == 0 {
 				// half of the faults are same-length substitutions inside file data, in the direction
 				// that carries it: the class of damage that only the digest comparison can catch
 				f.kind = "flip"
-				f.dir = dirS2C
-				if b.cfg.upload {
-					f.dir = dirC2S
-				}
+				f.dir = ddir
 				for try := 0; try < 50; try++ {
 					f.offset = int64(c.rng.Intn(len(b.wire[f.dir])))
 					if ph := phaseAt(b.wire[f.dir], f.offset); ph == "DATA" || ph == "payload" {
 						break
 					}
 				}
+			} else if b.kind == "resume" && k%4 == 1 {
+				// inside the prefix-hash exchange: the HASH records and their answers
+				f.dir = c.rng.Intn(2)
+				for try := 0; try < 80; try++ {
+					f.offset = int64(c.rng.Intn(len(b.wire[f.dir])))
+					ph := phaseAt(b.wire[f.dir], f.offset)
+					if ph == "HASH" || (f.dir != ddir && ph == "SUCC") {
+						break
+					}
+				}
 			}
-			cases = append(cases, &fcase{b: b, f: f, phase: phaseAt(b.wire[f.dir], f.offset)})
+			switch f.kind {
+			case "cut", "dupr":
+				// a range: half of the time whole lines
+				f.end = f.offset + 1 + int64(c.rng.Intn(400))
+				if ls := lines[f.dir]; len(ls) > 0 && c.rng.Intn(2) == 0 {
+					i := c.rng.Intn(len(ls))
+					j := i + c.rng.Intn(minInt(3, len(ls)-i))
+					f.offset, f.end = ls[i][0], ls[j][1]
+				}
+				if f.kind == "cut" && c.rng.Intn(4) == 0 {
+					// truncation followed by late garbage: everything up to a point near the end is lost
+					f.end = int64(len(b.wire[f.dir])) - int64(c.rng.Intn(200))
+				}
+				if f.end <= f.offset {
+					f.end = f.offset + 1
+				}
+			case "dropline", "dupline", "forge":
+				f.prefix = []string{"#SUCC:", "#MD5:", "#SUCC:", "#DATA:", "#SIZE:", "#NAME:", "#HASH:"}[c.rng.Intn(7)]
+				f.dir = ddir
+				if f.prefix == "#SUCC:" {
+					f.dir = 1 - ddir
+				}
+				n := bytes.Count(b.wire[f.dir], []byte("\n"+f.prefix))
+				f.nth = 1 + c.rng.Intn(n+1)
+				if f.kind == "dropline" {
+					// as a range cut of the line's bytes when the baseline has it (robust against coalesced writes)
+					cnt := 0
+					for _, lr := range lines[f.dir] {
+						if bytes.HasPrefix(b.wire[f.dir][lr[0]:], []byte(f.prefix)) {
+							cnt++
+							if cnt == f.nth {
+								f.kind, f.offset, f.end = "cut", lr[0], lr[1]
+								break
+							}
+						}
+					}
+				}
+			}
+			return f
+		}
+		if b.kind == "size-race" {
+			st, _ := os.Stat(b.tops[0])
+			for k := 0; k < c.pick(8, 24); k++ {
+				cases = append(cases, &fcase{b: b, phase: []string{"SIZE", "SUCC(size)", "SUCC(final)", "DATA"}, fs: []faultSpec{
+					{dir: ddir, kind: "forge", prefix: "#SIZE:", nth: 1, repl: "#SIZE:0\n"},
+					{dir: 1 - ddir, kind: "forge", prefix: "#SUCC:", nth: 3, repl: fmt.Sprintf("#SUCC:%d\n", st.Size())},
+					// the final ack says "saved up to 0": the sender would wait for its own size
+					{dir: 1 - ddir, kind: "forge", prefix: "#SUCC:", nth: 6, repl: fmt.Sprintf("#SUCC:%d\n", st.Size())},
+					{dir: ddir, kind: "coalesce"}}})
+			}
+			continue
+		}
+		if b.kind == "resume-blocks" {
+			// the answers of the hash exchange are the 3rd, 4th ... line of the answering direction
+			// (after the echo of NUM and the name reply): one of them lost, doubled, or forged
+			for k := 0; k < c.pick(3, 12); k++ {
+				f := faultSpec{dir: 1 - ddir, kind: []string{"dropline", "dupline", "forge"}[k%3], prefix: "#SUCC:", nth: 3 + (k/3)%2, bit: uint(c.rng.Intn(8))}
+				if f.kind == "dropline" {
+					cnt := 0
+					for _, lr := range lines[f.dir] {
+						if bytes.HasPrefix(b.wire[f.dir][lr[0]:], []byte(f.prefix)) {
+							cnt++
+							if cnt == f.nth {
+								f.kind, f.offset, f.end = "cut", lr[0], lr[1]
+								break
+							}
+						}
+					}
+				}
+				cases = append(cases, &fcase{b: b, fs: []faultSpec{f}, phase: []string{"SUCC(hash)"}})
+			}
+			continue
+		}
+		for k := 0; k < per; k++ {
+			fc := &fcase{b: b}
+			nf := []int{1, 1, 1, 1, 2, 2, 2, 3}[c.rng.Intn(8)]
+			for j := 0; j < nf; j++ {
+				kk := k
+				if j > 0 {
+					kk = c.rng.Intn(1000)*2 + 1 // the further faults: anywhere
+				}
+				f := one(kk)
+				fc.fs = append(fc.fs, f)
+				fc.phase = append(fc.phase, phaseAt(b.wire[f.dir], f.offset))
+			}
+			cases = append(cases, fc)
 		}
 	}
 	parallelDo(len(cases), 40, func(i int) {
 		fc := cases[i]
 		dest := filepath.Join(fc.b.root, fmt.Sprintf("d%d", i))
-		os.MkdirAll(dest, 0755)
+		fc.b.mkDest(dest)
 		cfg := fc.b.cfg
-		cfg.hook = faultHook(fc.f)
+		h := newC02Hook(fc.fs)
+		cfg.hook = h.hook
 		fc.res = runTransfer(cfg, fc.b.tops, dest)
 		r := fc.res
 		shown := r.serverOut
@@ -183,15 +633,38 @@ func genFaults(c *ctx) {
 			// success claimed: every source must be present, identical
 			if saved && len(names) != len(fc.b.tops) {
 				fc.bad = fmt.Sprintf("success shown with names %v for %d sources", names, len(fc.b.tops))
+			} else if saved {
+				fc.bad = fc.b.identical(dest, names)
 			} else {
-				for j, top := range fc.b.tops {
-					name := filepath.Base(top)
-					if saved {
-						name = names[j]
-					}
-					if d := sameTree(top, filepath.Join(dest, name)); len(d) > 0 {
-						fc.bad = strings.Join(d, ";")
-						break
+				fc.bad = fc.b.identical(dest, fc.b.names)
+			}
+		}
+		h.mu.Lock()
+		run := &c02fRun{cfg: cfg, tops: fc.b.tops, pre: fc.b.pre, dest: dest, res: r, kind: fc.b.kind,
+			sent:  [2][]byte{append([]byte{}, h.sent[0].Bytes()...), append([]byte{}, h.sent[1].Bytes()...)},
+			deliv: r.wire}
+		for d := 0; d < 2; d++ {
+			if h.stale[d] >= 0 && h.stale[d] <= int64(len(run.deliv[d])) {
+				run.deliv[d] = run.deliv[d][:h.stale[d]]
+				run.staleCut = true
+			}
+		}
+		h.mu.Unlock()
+		var fss []string
+		for _, f := range fc.fs {
+			fss = append(fss, fmt.Sprintf("%s(bit %d)", f, f.bit))
+		}
+		run.desc = fmt.Sprintf("faults %s cfg: %s kind=%s", strings.Join(fss, " "), describeCfg(cfg), fc.b.kind)
+		fc.tie = c02fEvaluate(run)
+		if os.Getenv("C02_DEBUG") != "" && fc.b.kind == "size-race" {
+			for d := 0; d < 2; d++ {
+				for _, l := range bytes.Split(run.sent[d], []byte("\n")) {
+					if bytes.HasPrefix(l, []byte("#FAIL:")) || bytes.HasPrefix(l, []byte("#fail:")) {
+						t, _ := trzsz.VerifDecodeString(string(l[6:]))
+						fmt.Fprintf(os.Stderr, "SIZERACE dir=%d fail=%q\n", d, tailStr(string(t), 160))
+						if strings.Contains(string(t), "timeout") {
+							fmt.Fprintf(os.Stderr, "SIZERACE-WIRE %s\n  sent0=%q\n  deliv0=%q\n  sent1=%q\n  deliv1=%q\n", describeCfg(cfg), tailStr(string(run.sent[0]), 600), tailStr(string(run.deliv[0]), 600), tailStr(string(run.sent[1]), 600), tailStr(string(run.deliv[1]), 600))
+						}
 					}
 				}
 			}
@@ -199,17 +672,57 @@ func genFaults(c *ctx) {
 		os.RemoveAll(dest)
 	})
 	for _, fc := range cases {
-		c.note(fc.succ == "", fmt.Sprintf("fault %s phase=%s %s => success=%q hung=%v", fc.f, fc.phase, describeCfg(fc.b.cfg), fc.succ, fc.res.hung))
-		c.count("phase:" + fc.phase)
-		c.count("kind:" + fc.f.kind)
+		var fss []string
+		for _, f := range fc.fs {
+			fss = append(fss, f.String())
+		}
+		sort.Strings(fss)
+		c.count(fmt.Sprintf("faults-per-run:%d", len(fc.fs)))
+		c.count("base:" + fc.b.kind)
+		for i, f := range fc.fs {
+			c.count("phase:" + fc.phase[i])
+			c.count("kind:" + f.kind)
+		}
 		if fc.succ != "" {
 			c.count("outcome:success-identical")
 		} else {
 			c.count("outcome:error")
 		}
+		key := "silent-corruption:" + fc.fs[0].kind + ":" + fc.phase[0]
+		if fc.b.kind == "size-race" {
+			key = "size-race:e2e"
+		}
+		if fc.b.kind == "resume-blocks" {
+			// one fault on an answer of the prefix-hash exchange
+			key = "resume-hash-answer:" + map[string]string{"cut": "lost", "dupline": "doubled", "forge": "forged"}[fc.fs[0].kind]
+		}
+		desc := fmt.Sprintf("faults %s phases=%v %s kind=%s", strings.Join(fss, " "), fc.phase, describeCfg(fc.b.cfg), fc.b.kind)
 		if fc.bad != "" {
-			c.violate("silent-corruption:"+fc.f.kind+":"+fc.phase, "a side reported success although the destination differs from the source",
-				fmt.Sprintf("fault %s (bit %d) phase=%s cfg: %s :: %s :: %s", fc.f, fc.f.bit, fc.phase, describeCfg(fc.b.cfg), fc.succ, fc.bad))
+			var bits []string
+			for _, f := range fc.fs {
+				bits = append(bits, fmt.Sprintf("%s(bit %d)", f, f.bit))
+			}
+			c.violate(key, "a side reported success although the destination differs from the source",
+				fmt.Sprintf("faults %s phases=%v cfg: %s kind=%s :: %s :: %s", strings.Join(bits, " "), fc.phase, describeCfg(fc.b.cfg), fc.b.kind, fc.succ, fc.bad))
+		}
+		for _, v := range fc.tie.viols {
+			c.violate(v.key, v.what, v.detail)
+		}
+		for _, k := range fc.tie.counts {
+			c.count(k)
+		}
+		if fc.tie.skip != "" {
+			c.count("tie-skipped:" + fc.tie.skip)
+		}
+		if len(fc.tie.emits) == 0 {
+			c.note(fc.succ == "", desc+fmt.Sprintf(" => success=%q hung=%v", fc.succ, fc.res.hung))
+		}
+		for _, e := range fc.tie.emits {
+			c.emit(e.nontrivial, e.fn, e.res, e.args...)
+			if os.Getenv("C02_DEBUG") != "" {
+				fmt.Fprintf(os.Stderr, "CASE %d %s %s\n", c.n, e.fn, desc)
+			}
 		}
 	}
+	_ = md5.Sum
 }
